@@ -38,6 +38,9 @@ pub(crate) fn arbitrary<const N: usize>() -> (CacheWeight<u64>, Model<N>) {
     arbitrary_with(crate::cache::stats::verif_kani::zeroed())
 }
 pub(crate) fn arbitrary_with<const N: usize>(stats: ConcurrentStatsCounter) -> (CacheWeight<u64>, Model<N>) {
+    arbitrary_sharing(Arc::new(stats))
+}
+pub(crate) fn arbitrary_sharing<const N: usize>(stats: Arc<ConcurrentStatsCounter>) -> (CacheWeight<u64>, Model<N>) {
     let max: Weight = kani::any();
     kani::assume(max > 0);
     let mut entries = [Entry { id: 0, key: 0, hash: 0, weight: 0 }; N];
@@ -61,7 +64,7 @@ pub(crate) fn arbitrary_with<const N: usize>(stats: ConcurrentStatsCounter) -> (
         }
         i += 1;
     }
-    let cw = CacheWeight { max_weight: max, weight_used: RwLock::new(used), key_weights: map, stats_counter: Arc::new(stats) };
+    let cw = CacheWeight { max_weight: max, weight_used: RwLock::new(used), key_weights: map, stats_counter: stats };
     (cw, Model { max, used, n, present, entries })
 }
 
@@ -323,3 +326,4 @@ fn sampled_key_order_transitive() {
     let c = any_sampled();
     if a.cmp(&b) != Ordering::Less && b.cmp(&c) != Ordering::Less { assert!(a.cmp(&c) != Ordering::Less); }
 }
+
